@@ -261,7 +261,7 @@ pub fn vbyteio(tr: &mut Tr, seed: u64, dense_log: u32, maxlen: usize, sample3: u
         if v < 300 || v > (1 << 21) || v % 509 == 0 {
             let len = byte_len_vbyte(v);
             for variant in ["be", "le", "generic-be", "generic-le"] {
-                vb_write_sink(tr, variant, v, 1 + (v as usize + len) % 3, usize::MAX);
+                vb_write_sink(tr, variant, v, 1 + ((v % 3) as usize + len) % 3, usize::MAX);
                 let cap = (v as usize / 3 + len + 1) % (len + 2);
                 vb_write_sink(tr, variant, v, usize::MAX, cap);
                 tests += 2;
